@@ -70,6 +70,7 @@ func init() {
 	}
 	sinstr := []instrSpec{{File: "terminfo/terminfo.go", Time: true}, {File: "tscreen.go", Sched: true}, {File: "screen.go", Sched: true}, {File: "simulation.go", Sched: true},
 		{File: "key.go", Time: true}, {File: "mouse.go", Time: true}, {File: "event.go", Time: true}, {File: "resize.go", Time: true}, {File: "interrupt.go", Time: true}, {File: "paste.go", Time: true}, {File: "focus.go", Time: true}, {File: "errors.go", Time: true}}
+	reg(&spec{ID: "C10", Pkg: "./harness/conc", Level: "model_checking", Race: true, ShardsQ: n, ShardsT: n, DeadQ: 300, DeadT: 2400, Args: []string{"-prop", "C10"}, InstrFiles: sinstr})
 	reg(&spec{ID: "C05", Pkg: "./harness/conc", Level: "model_checking", ShardsQ: n, ShardsT: n, DeadQ: 240, DeadT: 2400, Args: []string{"-prop", "C05"}, InstrFiles: sinstr})
 	reg(&spec{ID: "C06", Pkg: "./harness/conc", Level: "model_checking", ShardsQ: n, ShardsT: n, DeadQ: 240, DeadT: 2400, Args: []string{"-prop", "C06"}, InstrFiles: sinstr})
 	reg(&spec{ID: "C07", Pkg: "./harness/c07", Level: "exploration", ShardsQ: n, ShardsT: n, DeadQ: 240, DeadT: 1800})
@@ -325,6 +326,9 @@ func runCheck(sp *spec, tier string, extra []string) int {
 				var r hc.Result
 				if json.Unmarshal(b, &r) == nil {
 					results[i] = &r
+					if sp.Race {
+						r.Violations = append(r.Violations, raceReports(sp.ID, stderr.String())...)
+					}
 				}
 			}
 			if results[i] != nil && stderr.Len() > 0 && crashes[i] == "" {
@@ -491,6 +495,9 @@ func workerCmd(sp *spec, bin string, args []string) *exec.Cmd {
 	}
 	cmd.Dir = root
 	cmd.Env = append(os.Environ(), "VERIF_REPO_DIR="+repoDir(), "VERIF_ROOT_DIR="+root)
+	if sp.Race {
+		cmd.Env = append(cmd.Env, "GORACE=exitcode=0 history_size=2")
+	}
 	if os.Getenv("GOMAXPROCS") == "" && !sp.Race {
 		// one shard per core: a single P per worker avoids cross-shard scheduler contention
 		cmd.Env = append(cmd.Env, "GOMAXPROCS=1")
@@ -596,4 +603,71 @@ func replay(path string) {
 		}
 		die(2, "%v", err)
 	}
+}
+
+
+// raceReports turns ThreadSanitizer reports in a worker's stderr into violations, keyed by
+// the pair of tcell functions at the two access sites.
+func raceReports(id, stderr string) []hc.Violation {
+	var out []hc.Violation
+	seen := map[string]bool{}
+	lastExec := ""
+	blocks := strings.Split(stderr, "WARNING: DATA RACE")
+	for bi, blk := range blocks {
+		if bi > 0 {
+			end := strings.Index(blk, "==================")
+			body := blk
+			if end >= 0 {
+				body = blk[:end]
+			}
+			var sites []string
+			for _, part := range strings.Split(body, "\n\n") {
+				p := strings.TrimSpace(part)
+				if !(strings.HasPrefix(p, "Write at") || strings.HasPrefix(p, "Read at") || strings.HasPrefix(p, "Previous write at") || strings.HasPrefix(p, "Previous read at")) {
+					continue
+				}
+				site := "?"
+				for _, line := range strings.Split(p, "\n")[1:] {
+					l := strings.TrimSpace(line)
+					if l == "" || strings.HasPrefix(l, "/") || strings.HasPrefix(l, "runtime.") || strings.HasPrefix(l, "sync.") || strings.HasPrefix(l, "sync/atomic.") {
+						continue // file:line lines and runtime/sync internals under the access
+					}
+					// the first frame that is not runtime/sync decides who made the access
+					if strings.HasPrefix(l, "github.com/gdamore/tcell/v2.") && !strings.HasPrefix(l, "github.com/gdamore/tcell/v2.Verif") {
+						f := strings.TrimPrefix(l, "github.com/gdamore/tcell/v2.")
+						f = strings.NewReplacer("(*", "", ")", "").Replace(f)
+						if i := strings.LastIndex(f, "("); i > 0 {
+							f = f[:i]
+						}
+						site = f
+					} else if strings.HasPrefix(l, "github.com/gdamore/tcell/v2/terminfo.") {
+						site = "terminfo." + strings.TrimSuffix(strings.TrimPrefix(l, "github.com/gdamore/tcell/v2/terminfo."), "()")
+					}
+					break
+				}
+				sites = append(sites, site)
+			}
+			if len(sites) >= 2 && sites[0] != "?" && sites[1] != "?" {
+				a, b := sites[0], sites[1]
+				if a > b {
+					a, b = b, a
+				}
+				sig := "race:" + a + "|" + b
+				if !seen[sig] {
+					seen[sig] = true
+					if len(body) > 2500 {
+						body = body[:2500] + "..."
+					}
+					out = append(out, hc.Violation{Property: id, Signature: sig, Desc: fmt.Sprintf("data race between %s and %s (first seen while running %s)\n%s", a, b, lastExec, strings.TrimSpace(body)), Replay: map[string]string{"exec": lastExec}})
+				}
+			}
+		}
+		if i := strings.LastIndex(blk, "EXEC "); i >= 0 {
+			rest := blk[i+5:]
+			if j := strings.IndexByte(rest, '\n'); j >= 0 {
+				lastExec = rest[:j]
+			}
+		}
+	}
+	return out
 }
